@@ -363,6 +363,19 @@ def procedures(env, cc):
             raise AssertionError('re-parse returned another formula')
         return None, None
     P['reparse_dag'] = reparse
+
+    def reserialize(f):
+        # the script a parser returns (it carries an annotation table and
+        # commands of its own), printed again with sharing
+        buf = StringIO()
+        with warnings.catch_warnings():
+            warnings.simplefilter('ignore')
+            smtlibscript_from_formula(f).serialize(buf, daggify=True)
+            sc = SmtLibParser(env).get_script(StringIO(buf.getvalue()))
+            out = StringIO()
+            sc.serialize(out, daggify=True)
+        return None, None
+    P['reserialize_parsed_dag'] = reserialize
     # rewriters that are plain functions (no walker): counted by function
     # entries inside pysmt
     P['conjunctive_partition'] = lambda f: (
@@ -504,6 +517,8 @@ def run(rep):
             # token-level measures (printer / parser) see each node a few
             # more times (let name, operator, references): larger constant
             cc_ = 20 if proc in ('reparse_dag', 'to_smtlib_dag') else C
+            if proc == 'reserialize_parsed_dag':
+                cc_ = 45
             if proc in BOOL_ONLY:
                 cc_ = 60     # function entries, not callbacks
             if k2 > cc_ * s2 or (k1 > 0 and k2 > 2.5 * k1):
